@@ -13,6 +13,7 @@ import (
 	"sort"
 	"strings"
 	"sync"
+	"syscall"
 	"time"
 
 	"honnef.co/go/tools/lintcmd/runner"
@@ -224,6 +225,9 @@ type runResult struct {
 	stdout string
 	stderr string
 	wall   time.Duration
+	// the run was still going after limit and was killed (SIGQUIT first: stderr holds the goroutine dump)
+	timedOut bool
+	limit    time.Duration
 }
 
 func (r *runResult) raced() bool {
@@ -273,17 +277,50 @@ func runIn(bin, dir, cache string, cfg RunCfg, modflag string, flags ...string) 
 	var o, e bytes.Buffer
 	cmd.Stdout, cmd.Stderr = &o, &e
 	t0 := time.Now()
-	err := cmd.Run()
-	res := &runResult{cfg: cfg, bin: bin, stdout: o.String(), stderr: e.String(), wall: time.Since(t0)}
+	if err := cmd.Start(); err != nil {
+		return nil, fmt.Errorf("%s did not start: %v", bin, err)
+	}
+	done := make(chan error, 1)
+	go func() { done <- cmd.Wait() }()
+	limit := runTimeout(bin)
+	var err error
+	timedOut := false
+	select {
+	case err = <-done:
+	case <-time.After(limit):
+		// a run that does not end: ask for a goroutine dump, then kill
+		timedOut = true
+		cmd.Process.Signal(syscall.SIGQUIT)
+		select {
+		case err = <-done:
+		case <-time.After(10 * time.Second):
+			cmd.Process.Kill()
+			err = <-done
+		}
+	}
+	res := &runResult{cfg: cfg, bin: bin, stdout: o.String(), stderr: e.String(), wall: time.Since(t0), timedOut: timedOut, limit: limit}
 	if err != nil {
 		ee, ok := err.(*exec.ExitError)
 		if !ok {
-			return nil, fmt.Errorf("%s did not start: %v", bin, err)
+			return nil, fmt.Errorf("%s: %v", bin, err)
 		}
 		res.exit = ee.ExitCode()
+		if ws, ok := ee.Sys().(syscall.WaitStatus); ok && ws.Signaled() && !timedOut {
+			// killed from outside (out of memory, somebody's pkill): says nothing about the linter
+			return nil, fmt.Errorf("%s (%s) was killed by signal %v after %v; not a verdict", cfg, bin, ws.Signal(), res.wall.Round(time.Millisecond))
+		}
 	}
 	ev.Count("staticcheck_runs", 1)
 	return res, nil
+}
+
+// runTimeout is the time after which a run counts as not terminating. The
+// generated modules take 2-20 s per run even on a heavily loaded machine.
+func runTimeout(bin string) time.Duration {
+	if bin == binRace {
+		return time.Duration(ev.EnvInt("C06_RACE_TIMEOUT_S", 420, 600)) * time.Second
+	}
+	return time.Duration(ev.EnvInt("C06_RUN_TIMEOUT_S", 180, 300)) * time.Second
 }
 
 func writeModule(c *Case, dir string) error {
